@@ -4,6 +4,7 @@ From Coq Require Import ZArith List Bool PrimFloat.
 Import ListNotations.
 Require Import PyBase Solver SolverF SolveAll SolveAllF SolveAllFacts SolveAllExamples.
 Require Import SolveAllSpan SolveAllSpanFacts SolveAllSpanExamples SolverFacts3 SolveAllFacts2.
+Require Import SolveAllFacts3 SolveAllPeriod SolveAllPeriodFacts SolveAllExamples3.
 Require Fsic.Gen.Generated.
 Open Scope Z_scope.
 
@@ -243,6 +244,22 @@ Section C05span.
     | (s', Raise e) => (s', Raise e)
     end.
   Proof. exact (solve_unique_ends num sub absf ltb isfin zero ev before after k span d o start end_ s a b xs xe). Qed.
+  (* the same guard as a boolean test (decidable): unique_at span i = "the label of period i is carried by period i only" *)
+  Theorem C05_solve_unique_ends_b k span d o start end_ s a b :
+    min_iter o <= max_iter o ->
+    unique_at span a = true -> unique_at span b = true ->
+    resolves_start Z d span start a -> resolves_end Z d span end_ b ->
+    solve_M k span d o span start end_ s =
+    match run_periods d o (periods Z span a b) s [] with
+    | (s', Ret vs) => (s', Ret (mkRes (S b - a) vs))
+    | (s', Raise e) => (s', Raise e)
+    end.
+  Proof. exact (solve_unique_ends_b num sub absf ltb isfin zero ev before after k span d o start end_ s a b). Qed.
+  (* solve_period(label) = solve_t(position) as soon as THAT label is carried by one period only *)
+  Theorem C05_solve_period_unique_label k span d o lab i s :
+    nth_error span i = Some lab -> count_of lab span = 1%nat ->
+    solve_period_M k span d o lab s = solve_t_M d o (Z.of_nat i) s.
+  Proof. exact (solve_period_unique_label num sub absf ltb isfin zero ev before after k span d o lab i s). Qed.
   Theorem C05_solve_unknown_start_every_span k span d o x end_ s :
     min_iter o <= max_iter o -> ~ In x span -> solve_M k span d o span (Some x) end_ s = (s, Raise KeyError).
   Proof. exact (solve_unknown_start_every_span num sub absf ltb isfin zero ev before after k span d o x end_ s). Qed.
@@ -294,6 +311,100 @@ Theorem C05_default_range_repeated_label_refuted :
     snd (f_solve sc d o 3 span [] None None s) = Raise TypeError.
 Proof. exact default_range_repeated_label_refuted. Qed.
 
+(* the guards are decidable *)
+Theorem C05_nodup_b_spec l : nodup_b l = true <-> NoDup l.
+Proof. exact (nodup_b_spec l). Qed.
+Theorem C05_unique_at_spec span i :
+  unique_at span i = true <-> exists x, nth_error span i = Some x /\ count_of x span = 1%nat.
+Proof. exact (unique_at_spec span i). Qed.
+Theorem C05_nodup_unique_at span i : NoDup span -> (i < length span)%nat -> unique_at span i = true.
+Proof. exact (nodup_unique_at span i). Qed.
+
+(* ---- solve() with a non-zero offset: the same offset goes to every period; the first period of the range whose source period
+   t+offset lies outside the span ends the run with IndexError — the periods before it keep their completed results (they are
+   exactly what the run over that prefix produces), that period and all later ones are untouched ---- *)
+Section C05offset.
+  Variable num : Type.
+  Variables (sub : num -> num -> num) (absf : num -> num) (ltb : num -> num -> bool)
+            (isfin : num -> bool) (zero : num).
+  Variables (ev before after : hook num).
+  Variable L : Type.
+  Variable locate : L -> locres.
+  Notation run_periods := (run_periods num sub absf ltb isfin zero ev before after L).
+  Notation solve_M := (solve_M num sub absf ltb isfin zero ev before after L locate).
+
+  Theorem C05_run_periods_offset_stops d o span a b j s :
+    min_iter o <= max_iter o -> offset o <> 0 -> length (status s) = length span ->
+    (a + j <= b)%nat -> (b < length span)%nat ->
+    (Z.of_nat (a + j) + offset o < 0 \/ Z.of_nat (length span) <= Z.of_nat (a + j) + offset o) ->
+    run_periods d o (periods L span a b) s [] =
+    match run_periods d o (firstn j (periods L span a b)) s [] with
+    | (s1, Ret vs) => (s1, Raise IndexError)
+    | (s1, Raise e) => (s1, Raise e)
+    end.
+  Proof. exact (run_periods_offset_stops num sub absf ltb isfin zero ev before after L d o span a b j s). Qed.
+  Theorem C05_solve_offset_before_span_rejected d o span start end_ s a b :
+    min_iter o <= max_iter o -> locate_ok L locate span -> length (status s) = length span ->
+    resolves_start L d span start a -> resolves_end L d span end_ b -> (a <= b)%nat ->
+    Z.of_nat a + offset o < 0 ->
+    solve_M d o span start end_ s = (s, Raise IndexError).
+  Proof. exact (solve_offset_before_span_rejected num sub absf ltb isfin zero ev before after L locate d o span start end_ s a b). Qed.
+  Theorem C05_solve_offset_beyond_span_stops d o span start end_ s a b j :
+    min_iter o <= max_iter o -> locate_ok L locate span -> length (status s) = length span ->
+    resolves_start L d span start a -> resolves_end L d span end_ b -> (a + j <= b)%nat ->
+    offset o <> 0 -> Z.of_nat (length span) <= Z.of_nat (a + j) + offset o ->
+    solve_M d o span start end_ s =
+    match run_periods d o (firstn j (periods L span a b)) s [] with
+    | (s1, Ret vs) => (s1, Raise IndexError)
+    | (s1, Raise e) => (s1, Raise e)
+    end.
+  Proof. exact (solve_offset_beyond_span_stops num sub absf ltb isfin zero ev before after L locate d o span start end_ s a b j). Qed.
+End C05offset.
+
+(* ---- quarterly pandas PeriodIndex, from a MODEL of PeriodIndex.get_loc (labels = quarter ordinals; a Period object and its full
+   string are the same key; the key year_key y is the year string 'y', a key of lower resolution than the index): a year string
+   is answered with a slice when some quarter of that year is in the index (one or several) and with KeyError otherwise — never
+   with an int — so solve() / solve_period() reject it with KeyError before anything is solved ---- *)
+Theorem C05_locate_qindex_ok span : NoDup span -> (forall z, In z span -> 0 <= z) -> locate_ok Z (locate_qindex span) span.
+Proof. exact (locate_qindex_ok span). Qed.
+Theorem C05_locate_qindex_year span y : 0 < y ->
+  locate_qindex span (year_key y) = if existsb (fun z => year_of z =? y) span then LOther else LFail.
+Proof. exact (locate_qindex_year span y). Qed.
+Theorem C05_locate_qindex_unknown span z : 0 <= z -> ~ In z span -> locate_qindex span z = LFail.
+Proof. exact (locate_qindex_unknown span z). Qed.
+Section C05period.
+  Variable num : Type.
+  Variables (sub : num -> num -> num) (absf : num -> num) (ltb : num -> num -> bool)
+            (isfin : num -> bool) (zero : num).
+  Variables (ev before after : hook num).
+  Notation solve_t_M := (solve_t_M num sub absf ltb isfin zero ev before after).
+  Notation run_periods := (run_periods num sub absf ltb isfin zero ev before after Z).
+  Notation solve_M span := (solve_M num sub absf ltb isfin zero ev before after Z (locate_qindex span)).
+  Notation solve_period_M span := (solve_period_M num sub absf ltb isfin zero ev before after Z (locate_qindex span)).
+  Theorem C05_solve_year_start_keyerror span d o y end_ s :
+    min_iter o <= max_iter o -> 0 < y -> solve_M span d o span (Some (year_key y)) end_ s = (s, Raise KeyError).
+  Proof. exact (solve_year_start_keyerror num sub absf ltb isfin zero ev before after span d o y end_ s). Qed.
+  Theorem C05_solve_year_end_keyerror span d o y start s :
+    min_iter o <= max_iter o -> 0 < y -> solve_M span d o span start (Some (year_key y)) s = (s, Raise KeyError).
+  Proof. exact (solve_year_end_keyerror num sub absf ltb isfin zero ev before after span d o y start s). Qed.
+  Theorem C05_solve_period_year_keyerror span d o y s :
+    0 < y -> solve_period_M span d o (year_key y) s = (s, Raise KeyError).
+  Proof. exact (solve_period_year_keyerror num sub absf ltb isfin zero ev before after span d o y s). Qed.
+  Theorem C05_solve_qindex span d o start end_ s a b :
+    min_iter o <= max_iter o -> NoDup span -> (forall z, In z span -> 0 <= z) ->
+    resolves_start Z d span start a -> resolves_end Z d span end_ b ->
+    solve_M span d o span start end_ s =
+    match run_periods d o (periods Z span a b) s [] with
+    | (s', Ret vs) => (s', Ret (mkRes (S b - a) vs))
+    | (s', Raise e) => (s', Raise e)
+    end.
+  Proof. exact (solve_qindex num sub absf ltb isfin zero ev before after span d o start end_ s a b). Qed.
+  Theorem C05_solve_period_qindex span d o lab i s :
+    NoDup span -> (forall z, In z span -> 0 <= z) -> nth_error span i = Some lab ->
+    solve_period_M span d o lab s = solve_t_M d o (Z.of_nat i) s.
+  Proof. exact (solve_period_qindex num sub absf ltb isfin zero ev before after span d o lab i s). Qed.
+End C05period.
+
 (* the frame premise holds for every scripted model whose script makes no absolute write *)
 Theorem C05_scripted_oracles_frame n sc : scripts_local sc = true ->
   hook_frame float n (s_ev n sc) /\ hook_frame float n (s_before n sc) /\ hook_frame float n (s_after n sc).
@@ -339,6 +450,25 @@ Print Assumptions C05_solve_default_start_beyond_span.
 Print Assumptions C05_solve_default_end_beyond_span.
 Print Assumptions exS_defaults_beyond_span.
 Print Assumptions C05_default_range_repeated_label_refuted.
+Print Assumptions C05_solve_unique_ends_b.
+Print Assumptions C05_solve_period_unique_label.
+Print Assumptions C05_nodup_b_spec.
+Print Assumptions C05_unique_at_spec.
+Print Assumptions C05_nodup_unique_at.
+Print Assumptions C05_run_periods_offset_stops.
+Print Assumptions C05_solve_offset_before_span_rejected.
+Print Assumptions C05_solve_offset_beyond_span_stops.
+Print Assumptions C05_locate_qindex_ok.
+Print Assumptions C05_locate_qindex_year.
+Print Assumptions C05_locate_qindex_unknown.
+Print Assumptions C05_solve_year_start_keyerror.
+Print Assumptions C05_solve_year_end_keyerror.
+Print Assumptions C05_solve_period_year_keyerror.
+Print Assumptions C05_solve_qindex.
+Print Assumptions C05_solve_period_qindex.
+Print Assumptions exO_offset_runs_into_the_end.
+Print Assumptions exG_guards.
+Print Assumptions exP_period_index.
 Print Assumptions exS_unique_ends.
 Print Assumptions exS_every_span_kind.
 Print Assumptions exS_repeated_label.
